@@ -43,7 +43,8 @@ def _array_cases():
     return out
 
 
-contract('bycycle.plts.cyclepoints.plot_cyclepoints_array', cases=_array_cases(), raises={'ValueError': "fs < 0"}, modifies=[])
+contract('bycycle.plts.cyclepoints.plot_cyclepoints_array', cases=_array_cases(), raises={'ValueError': "fs < 0"},
+         modifies=['ax'])          # the drawing surface is drawn on; nothing else is touched
 
 
 # ------------------------------------------------------------------------------------------------ plot_cyclepoints_df
@@ -111,4 +112,4 @@ def _df_cases():
     return out
 
 
-contract('bycycle.plts.cyclepoints.plot_cyclepoints_df', cases=_df_cases(), raises={'ValueError': "fs < 0"}, modifies=[])
+contract('bycycle.plts.cyclepoints.plot_cyclepoints_df', cases=_df_cases(), raises={'ValueError': "fs < 0"}, modifies=['ax'])
